@@ -734,6 +734,8 @@ def _extract(raw, end, fixed, driver, chunks=(), cyclic=False):
             _run(scn())
         except _allowed() as e:
             err = e
+        except StubLivelock as e:  # spinning at EOF: never acceptable
+            err = e
     return fs, err
 
 
@@ -840,7 +842,8 @@ def prop_extract_truncated(cases_key, cls, lo, i, ci, t_chunks) -> bool:
     files, dirs = _want(kind, fmt, driver)
     fs, err = _extract(raw, t, c, driver)
     if err is not None:
-        return True  # the copy failed, which is what the statement requires
+        # the copy failed, which is what the statement requires (spinning at EOF is not failing)
+        return not isinstance(err, StubLivelock)
     return _exact(fs, files, dirs)
 
 
@@ -861,22 +864,25 @@ FIELD_POS_Q = [0, 99, 100, 124, 135, 148, 155, 156, 257, 345, 511]
 FIELD_POS = [0, 1, 50, 99, 100, 107, 108, 115, 116, 123, 124, 130, 135, 136, 147, 148, 151, 154, 155, 156, 157, 200, 256, 257, 262, 263, 264, 265, 280, 296, 297, 328, 329, 336, 337, 344, 345, 400, 499, 500, 511]
 
 
-def prop_extract_corrupt(kind, fmt, driver, c, hi, pi, mi, all_pos=False) -> bool:
-    """One byte of header block hi (offset FIELD_POS[pi], or pi itself with all_pos) is xor-ed with
+POS_TABLES = {"q": FIELD_POS_Q, "f": FIELD_POS, "all": list(range(512))}
+
+
+def prop_extract_corrupt(kind, fmt, driver, c, hi, pi, mi, table="q") -> bool:
+    """One byte of header block hi (offset POS_TABLES[table][pi]) is xor-ed with
     MASKS[mi]: the copy raises, or the tree is nevertheless exact (a change inside the checksum field
     that does not change its value)."""
     raw, tree, marks, payload_end = archive(kind, fmt)
     files, dirs = _want(kind, fmt, driver)
     off = _sel(header_blocks(kind, fmt), hi)
     mask = _sel(MASKS, mi)
-    pos = _sel(list(range(512)) if all_pos else FIELD_POS_Q, pi)
+    pos = _sel(POS_TABLES[table], pi)
     if off is None or mask is None or pos is None:
         return True
     p = off + pos
     bad = raw[:p] + bytes([raw[p] ^ mask]) + raw[p + 1 :]
     fs, err = _extract(bad, len(bad), c, driver)
     if err is not None:
-        return True
+        return not isinstance(err, StubLivelock)
     return _exact(fs, files, dirs)
 
 
@@ -1037,14 +1043,15 @@ def specs(tier: str):
         return chp, chpre, "[" + ", ".join(ch) + "]", words
 
     NCH = 4 if quick else 6
-    K = 3 if quick else 4
-    E = 8 if quick else 12
+    K = 3
+    E = 8 if quick else 10
     chp, chpre, chl, cw = chunkvars(NCH, K)
     N = len(DATA)
-    S2 = 2 if quick else 6
-    chpm, chprem, chlm, cwm = chunkvars(3 if quick else 5, 2 if quick else 3)  # member reader
-    M = 6 if quick else 10
+    S2 = 2 if quick else 3
+    chpm, chprem, chlm, cwm = chunkvars(3 if quick else 5, 2)  # member reader
+    M = 6 if quick else 8
     HS = 1 if quick else 2
+    chps, chpres, chls, cws = chunkvars(2, 3)  # sparse member reader
 
     # ---- L1
     add(
@@ -1111,15 +1118,15 @@ def specs(tier: str):
     add(
         "L1_member_reader_sparse",
         G1,
-        f"h0: int, s0: int, h1: int, s1: int, tail: int, bs: int, {chp2}",
-        [f"0 <= h0 <= {HS}", f"1 <= s0 <= {HS + 1}", f"0 <= h1 <= {HS}", f"1 <= s1 <= {HS + 1}", f"0 <= tail <= {HS}", f"0 <= bs <= {3 if quick else 8}"] + chpre2,
-        f"prop_member_reader(3, h0 + s0 + h1 + s1 + tail, 3, bs, {chl2}, blockinfo=[(h0, s0), (h0 + s0 + h1, s1)])",
-        f"FileStreamReaderWrapper with a sparse map of two stored blocks (holes 0..{HS}, blocks 1..{HS + 1} bytes, block size 0..{3 if quick else 8}): holes read as NULs, stored bytes in order; {cw2}",
+        f"h0: int, s0: int, h1: int, s1: int, tail: int, bs: int, {chps}",
+        [f"0 <= h0 <= {HS}", f"1 <= s0 <= {HS + 1}", f"0 <= h1 <= {HS}", f"1 <= s1 <= {HS + 1}", f"0 <= tail <= {HS}", f"0 <= bs <= {3 if quick else 4}"] + chpres,
+        f"prop_member_reader(3, h0 + s0 + h1 + s1 + tail, 3, bs, {chls}, blockinfo=[(h0, s0), (h0 + s0 + h1, s1)])",
+        f"FileStreamReaderWrapper with a sparse map of two stored blocks (holes 0..{HS}, blocks 1..{HS + 1} bytes, block size 0..{3 if quick else 4}): holes read as NULs, stored bytes in order; {cws}",
         f"2 hole sizes, 2 block sizes, tail hole, block size, chunk sizes",
         T_FILE,
     )
     # ---- L2 / L3 copy
-    L = 8 if quick else 16
+    L = 8 if quick else 12
     chp3, chpre3, chl3, cw3 = chunkvars(3 if quick else 5, K)
     kinds = [(0, 0, "seekable_to_file"), (1, 1, "rawstream_to_tellable"), (2, 1, "file_to_tellable")]
     if not quick:
@@ -1207,30 +1214,33 @@ def specs(tier: str):
                     T_TAR,
                 )
     # ---- L4 corruption of one header byte
-    npos = len(FIELD_POS_Q) if quick else 512
-    nmask = 2 if quick else 4
-    pos_words = f"{len(FIELD_POS_Q)} field-boundary offsets {FIELD_POS_Q}" if quick else "any offset 0..511"
-    for kind, fmt, driver in [("two", "ustar", "ets_tree")] if quick else [("two", "ustar", "ets_tree"), ("long", "gnu", "generic"), ("long", "pax", "ets_tree")]:
+    if quick:
+        plan = [("two", "ustar", "ets_tree", "q", 2, False)]
+    else:
+        plan = [("two", "ustar", "ets_tree", "all", 4, True), ("long", "gnu", "generic", "f", 4, False), ("long", "pax", "ets_tree", "f", 4, False)]
+    for kind, fmt, driver, table, nmask, split in plan:
         hb = header_blocks(kind, fmt)
+        npos = len(POS_TABLES[table])
+        pos_words = "any offset 0..511" if table == "all" else f"{npos} field-boundary offsets {POS_TABLES[table]}"
         add(
             f"L4_corrupt_first_header_{kind}_{fmt}_{driver}",
             G4C,
             "pi: int, mi: int",
             [f"0 <= pi <= {npos - 1}", f"0 <= mi <= {nmask - 1}"],
-            f"prop_extract_corrupt({kind!r}, {fmt!r}, {driver!r}, 512, 0, pi, mi, all_pos={not quick})",
+            f"prop_extract_corrupt({kind!r}, {fmt!r}, {driver!r}, 512, 0, pi, mi, {table!r})",
             f"archive '{kind}' ({fmt}), {_DRIVER_WORDS[driver]}, chunk 512: one byte of the FIRST header block ({pos_words}) xor {MASKS[:nmask]}: the copy raises or is exact",
             "byte offset, mask",
             T_TAR,
         )
-        groups = [(1, len(hb) - 1)] if quick else [(h, h) for h in range(1, len(hb))]
+        groups = [(h, h) for h in range(1, len(hb))] if split else [(1, len(hb) - 1)]
         for h0, h1 in groups:
             add(
-                f"L4_corrupt_later_header_{kind}_{fmt}_{driver}" + ("" if quick else f"_h{h0}"),
+                f"L4_corrupt_later_header_{kind}_{fmt}_{driver}" + (f"_h{h0}" if split else ""),
                 G4C,
                 "hi: int, pi: int, mi: int",
                 [f"{h0} <= hi <= {h1}", f"0 <= pi <= {npos - 1}", f"0 <= mi <= {nmask - 1}"],
-                f"prop_extract_corrupt({kind!r}, {fmt!r}, {driver!r}, 512, hi, pi, mi, all_pos={not quick})",
-                f"as L4_corrupt_first_header but in header block #{h0}..#{h1} (offsets {hb[h0 : h1 + 1]}) of the archive",
+                f"prop_extract_corrupt({kind!r}, {fmt!r}, {driver!r}, 512, hi, pi, mi, {table!r})",
+                f"as L4_corrupt_first_header_{kind}_{fmt}_{driver} but in header block #{h0}..#{h1} (offsets {hb[h0 : h1 + 1]}) of the archive, extension (pax / GNU long-name) headers included",
                 "header block, byte offset, mask",
                 T_TAR,
             )
